@@ -182,6 +182,14 @@ def gen_configs(tier):
             add(kind, 3, 2, NR=1, NC=2, maxbad=2, vals="fni", whole=True)
             add(kind, 2, 2, NR=2, maxbad=2, vals="fn", series="vars", colour="z")
             add(kind, 2, 3, NR=2, NC=2, maxbad=1, vals="fn", colour="c", legend="off")
+        # --- series of exactly three / four points (a four-point series looks like an RGBA colour), as a whole
+        #     series and as what NaN / inf leave of a longer one
+        add(kind, 4, 1, maxbad=b2 if not T else full)
+        add(kind, 4, 2, maxbad=b1 if not T else 3, whole=True, colour="z", ZPos=[1, 4], colormap="viridis")
+        add(kind, 5, 1, maxbad=b2 if not T else 3)
+        if sc or T:
+            add(kind, 5, 2, maxbad=b1 if not T else 2, colour="z", ZPos=[3, 2])
+            add(kind, 4, 3, maxbad=1, vals="fn", colors_list=True)
         # --- grids over coordinates that are neither increasing nor decreasing (three values)
         add(kind, 2, 2, NR=3, maxbad=1, vals="fn", whole=True)
         add(kind, 2, 1, NC=3, maxbad=1 if not T else 2, vals="fn", gridtype=2)
@@ -369,7 +377,7 @@ def grid_values(cfg):
 def x_coords(cfg):
     if cfg["kind"] == "heat":
         return [1.0, 2.0, 3.0, 4.0][:cfg["NX"]]
-    return [1.0, 2.0, 4.0, 8.0][:cfg["NX"]]
+    return [1.0, 2.0, 4.0, 8.0, 16.0, 32.0][:cfg["NX"]]
 
 
 def y_coords(cfg):
@@ -971,8 +979,19 @@ def compare(case, b, fig, P):
                                          tuple(round(float(x), 4) for x in cmap(v)[:3]), g["vmin"], g["vmax"]),
                                       colour="c", scatter=True)
                                 break
-                elif d["col"] and len(g["colors"]):
-                    check_colour(tuple(g["colors"][0]), d["col"], who)
+                else:
+                    # no colour variable: the series is one drawn series in one colour - every point carries
+                    # the series colour (for colors=True the colour map at the z value), none is colour-mapped
+                    # from some other numbers
+                    cols_ = [tuple(float(x) for x in row) for row in g["colors"]]
+                    if got_xy and (g["mapped"] or len({tuple(round(x, 9) for x in cl) for cl in cols_}) > 1):
+                        P.add("colour", "%s (%d points, no colour variable) is not drawn in one series colour: its points "
+                              "have colours %s%s" % (who, len(got_xy), [tuple(round(x, 4) for x in cl[:3]) for cl in cols_],
+                                                     " mapped from the values %s" % g["values"].tolist() if g["mapped"] else ""),
+                              colour=cfg["colour"], uniform=False)
+                    elif d["col"]:
+                        for cl in cols_:
+                            check_colour(cl, d["col"], who)
 
     # ---- legend and colour bar
     legs = plotread.legends(fig)
